@@ -219,7 +219,14 @@ def run_chunk(chunk):
                 j = mt.to_json()
                 for op, relc in ops_for(n):
                     idx += 1
-                    vs, nmoved = check_one(j, op, relc, (None, 'rev', 'export')[idx % 3],
+                    order = (None, 'rev', 'export')[idx % 3]
+                    jj = j
+                    if relc is None and order == 'rev' and idx % 2 and n >= 2:
+                        # a token without a tag (TIGER <t> without pos attribute): no option value may match it
+                        nt = [dict(tk) for tk in mt.toks]
+                        nt[n // 2]['pos'] = None
+                        jj = model.MT(1, nt, root).to_json()
+                    vs, nmoved = check_one(jj, op, relc, order,
                                            'binarize' if (idx % 4 == 0 and model.max_arity_of(sh) > 2) else None)
                     res.evals += 1
                     if nmoved:
